@@ -573,6 +573,30 @@ def cascadeTargets (es : List Edge) : List Nat :=
     | .dep => some e.dst
     | .arg _ => none
 
+/-- `imports.remove(name)` of an import node (`assert!(removed.is_some())`) -/
+def dropImport (g : Graph) (nd : Node) : Except Site Graph :=
+  match nd.kind with
+  | .import name =>
+    if (alGet g.imports name).isNone then .error .importsRemove
+    else .ok { g with imports := alErase g.imports name }
+  | _ => .ok g
+
+/-- `exports.swap_remove(name)` of an exported node, then (repair of row 2) every other name -/
+def dropExport (lg : Legacy) (g : Graph) (nd : Node) (n : Nat) : Except Site Graph :=
+  match nd.exp with
+  | some name =>
+    if (alGet g.exports name).isNone then .error .exportsRemove
+    else .ok { g with exports := dropExportsOf lg (alSwapRemove g.exports name) n }
+  | none => .ok g
+
+/-- `defined.remove(ty)` of a definition node -/
+def dropDefined (g : Graph) (nd : Node) : Except Site Graph :=
+  match nd.kind with
+  | .definition ty =>
+    if (alGet g.defined ty).isNone then .error .definedRemove
+    else .ok { g with defined := alErase g.defined ty }
+  | _ => .ok g
+
 /-- the bookkeeping of `remove_node` after the cascade: detach node `n` -/
 def detachNode (lg : Legacy) (g : Graph) (n : Nat) : Graph × Option Site :=
   -- (repair of row 1) arguments supplied by this node become unsatisfied again
@@ -584,30 +608,15 @@ def detachNode (lg : Legacy) (g : Graph) (n : Nat) : Graph × Option Site :=
     match g0.rawRemove n with
     | none => (g, some .invalidNodeId)
     | some (nd, g1) =>
-      -- import entry
-      let r1 : Graph × Option Site :=
-        match nd.kind with
-        | .import name =>
-          if (alGet g1.imports name).isNone then (g1, some .importsRemove)
-          else ({ g1 with imports := alErase g1.imports name }, none)
-        | _ => (g1, none)
-      match r1 with
-      | (g2, some s) => (g2, some s)
-      | (g2, none) =>
-        let r2 : Graph × Option Site :=
-          match nd.exp with
-          | some name =>
-            if (alGet g2.exports name).isNone then (g2, some .exportsRemove)
-            else ({ g2 with exports := dropExportsOf lg (alSwapRemove g2.exports name) n }, none)
-          | none => (g2, none)
-        match r2 with
-        | (g3, some s) => (g3, some s)
-        | (g3, none) =>
-          match nd.kind with
-          | .definition ty =>
-            if (alGet g3.defined ty).isNone then (g3, some .definedRemove)
-            else ({ g3 with defined := alErase g3.defined ty }, none)
-          | _ => (g3, none)
+      match dropImport g1 nd with
+      | .error s => (g1, some s)
+      | .ok g2 =>
+        match dropExport lg g2 nd n with
+        | .error s => (g2, some s)
+        | .ok g3 =>
+          match dropDefined g3 nd with
+          | .error s => (g3, some s)
+          | .ok g4 => (g4, none)
 
 /-- `remove_node` (recursive; `fuel` bounds the nesting depth, exhausted fuel = the real
     code's unbounded recursion on a cyclic graph) -/
